@@ -79,6 +79,7 @@ EXTRAS = ["reference", "filename", "encoder", "checksum"]
 STR = h5py.string_dtype(encoding="utf-8")
 VT_NP = {"int": np.dtype("<i8"), "float": np.dtype("<f8"), "bool": np.dtype("?"), "str": STR}
 UNITS = [None, "mV", "s", "uA", "Hz", "kg"]
+RAW_UNITS = ["\u00b5m", "\u03bcV", "mum/s", "m V", "uV / Hz", "\u00b5V/Hz", " s"]
 
 
 def _nix():
@@ -143,7 +144,7 @@ def expect_model(recipe):
     for path, s in iter_sections(recipe):
         secs["/".join(path)] = {
             "type": s["type"], "definition": s.get("def"),
-            "props": {p["name"]: {"values": cvals(p), "unit": p.get("unit"), "definition": p.get("def")}
+            "props": {p["name"]: {"values": cvals(p), "unit": p.get("raw_unit", p.get("unit")), "definition": p.get("def")}
                       for p in s.get("props", [])}}
     arrays = {}
     for b in recipe.get("blocks", []):
@@ -321,6 +322,16 @@ def old_props(recipe, down):
     if tuple(down["ver"]) >= (1, 1, 1):
         return []
     return [(path, p) for path, s in iter_sections(recipe) for p in s.get("props", [])]
+
+
+def apply_raw_units(path, recipe):
+    """units as other writers spelled them (micro signs, blanks, 'mu'): this library's setter would clean them up,
+    a file may hold them all the same - they have to read as they are, before and after an upgrade"""
+    with h5py.File(path, "a") as h:
+        for spath, s_ in iter_sections(recipe):
+            for p in s_.get("props", []):
+                if p.get("raw_unit"):
+                    h[sec_h5path(spath) + "/properties"][p["name"]].attrs["unit"] = p["raw_unit"]
 
 
 def downgrade(path, recipe, down):
@@ -588,6 +599,7 @@ class FileCase:
     def prepare(self):
         model = expect_model(self.recipe)
         build(self.cur, self.recipe)
+        apply_raw_units(self.cur, self.recipe)
         self.W0 = open_walk(self.cur, _nix().FileMode.ReadOnly)
         d = walk.diff(model, project(self.W0))
         if d:
@@ -926,6 +938,8 @@ def prop_st(draw, name):
                           st.lists(elem, min_size=2, max_size=6)))
     p = {"name": name, "vt": vt, "vals": vals,
          "unit": draw(st.sampled_from(UNITS)), "def": draw(st.one_of(st.none(), TEXT))}
+    if p["unit"] is not None and draw(st.integers(0, 3)) == 0:
+        p["raw_unit"] = draw(st.sampled_from(RAW_UNITS))
     um = draw(st.sampled_from(["zero", "zero", "common", "distinct", "distinct2"]))
     if um == "common":
         p["unc"] = [draw(SMALL_F)]
@@ -1082,6 +1096,8 @@ def _valid(case):
                     if p["vt"] == "str" and "\x00" in v:
                         return False
                 if p.get("unit") not in UNITS:
+                    return False
+                if p.get("raw_unit") is not None and (p["raw_unit"] not in RAW_UNITS or p.get("unit") is None):
                     return False
                 if p.get("def") is not None and not (isinstance(p["def"], str) and p["def"]):
                     return False
